@@ -10,6 +10,7 @@ CONSTANTS NS = 2
   Sweeps <- BT
   Caches <- BT
   DropInPort = TRUE
+  DeleteOnMove = TRUE
   IdleTO = 10
   HardTO = 30
   DropTO = 10
